@@ -10,7 +10,9 @@ import NeumannModel.Vec.Lemmas
   consulted) and `SearchOut.viaIndex snap ..` exactly when the cached index built from `snap`
   is consulted.  `runOld`, `searchDefaultOld`, `searchCollFilteredOld` are the code before those
   fixes; they appear only in the `_witness` theorems, which record on a concrete input what the
-  old code did and what the current code does instead.
+  old code did and what the current code does instead.  `searchWithHnsw` is the explicit-index
+  entry point with 733b279c, `searchWithHnswOld` the code before it.  The theorems about storage
+  keys and cache slots (4fa63773, the two namespace findings) are in `NsProps.lean`.
 -/
 namespace Neumann.Vec.Props
 open Neumann.Vec
@@ -269,6 +271,83 @@ theorem index_dim_unchecked_witness :
     (match searchDefault (run State.init dimOps) [0, 0, 1] 5 with
       | .viaIndex snap _ _ _ => snap.length
       | _ => 0) = 2 := by
+  decide
+
+/-! ### explicit_index_dimension_guard — `search_with_hnsw` hands the index only queries of its dimension -/
+
+/-- For EVERY data set that passes the build-time dimension check of `build_hnsw_index`, every
+    query and `k`: `search_with_hnsw` / `search_with_hnsw_and_metric` on the index built from it
+    consult the index only when every indexed vector has the query's dimension (the unspecified
+    outcome of the code before 733b279c — a panic on a shorter query, scores on a prefix of a
+    longer one — never occurs), and a non-empty query of any other dimension with `k > 0` is
+    refused with `DimensionMismatch`. -/
+theorem explicit_index_dimension_guard (items : Items) (hd : sameDims items = true)
+    (q : List Int) (k : Nat) :
+    (searchWithHnsw (snapOf items) q k).dimOK q ∧
+    ((∃ e ∈ snapOf items, e.2.length ≠ q.length) → q ≠ [] → k ≠ 0 →
+      searchWithHnsw (snapOf items) q k = .err .dimMismatch) := by
+  cases items with
+  | nil =>
+    refine ⟨?_, fun ⟨e, he, _⟩ => by cases he⟩
+    simp only [searchWithHnsw, snapOf, List.map_nil]
+    split
+    · trivial
+    · split
+      · trivial
+      · intro e he; cases he
+  | cons e0 rest =>
+    by_cases hlen : (vecOf e0.2).length = q.length
+    · have hu : indexUsable (snapOf (e0 :: rest)) q = true := by
+        simp only [snapOf, List.map_cons, indexUsable, beq_iff_eq]; exact hlen
+      have hall := snap_dims (e0 :: rest) hd q hu
+      refine ⟨?_, fun ⟨e, he, hne⟩ => absurd (hall e he) hne⟩
+      simp only [searchWithHnsw, snapOf, List.map_cons]
+      split
+      · trivial
+      · split
+        · trivial
+        · simp only [bne_iff_ne, ne_eq, hlen, not_true_eq_false, if_false]
+          intro e he
+          exact hall e (by simpa only [snapOf, List.map_cons] using he)
+    · have hbne : ((vecOf e0.2).length != q.length) = true := by simpa using hlen
+      refine ⟨?_, ?_⟩
+      · simp only [searchWithHnsw, snapOf, List.map_cons]
+        split
+        · trivial
+        · split
+          · trivial
+          · trivial
+      · intro _ hq hk
+        have hq' : q.isEmpty = false := by cases q <;> simp_all
+        simp only [searchWithHnsw, snapOf, List.map_cons, hq', hk, hbne, if_true, if_false,
+          Bool.false_eq_true]
+
+/-- ... in particular after EVERY operation sequence, for the index `build_hnsw_index` returns. -/
+theorem explicit_index_dimension_guard_run (ops : List Op) (snap : Snap)
+    (h : buildIndex (run State.init ops) = some snap) (q : List Int) (k : Nat) :
+    (searchWithHnsw snap q k).dimOK q := by
+  simp only [buildIndex] at h
+  split at h
+  · rename_i hd
+    cases h
+    exact (explicit_index_dimension_guard _ hd q k).1
+  · cases h
+
+/-- Regression witness (code before 733b279c): an index over dimension-3 vectors built with
+    `build_hnsw_index`; `search_with_hnsw` handed a dimension-4 and a dimension-2 query to the
+    index unchecked.  The current code refuses both and still answers a dimension-3 query from
+    the index. -/
+theorem explicit_index_dim_unchecked_witness :
+    buildIndex (run State.init dimOps) = some [("a", [1, 0, 0]), ("b", [0, 1, 0])] ∧
+    searchWithHnswOld [("a", [1, 0, 0]), ("b", [0, 1, 0])] [1, 0, 0, 5] 2
+      = .indexDimMismatch [("a", [1, 0, 0]), ("b", [0, 1, 0])] ∧
+    searchWithHnswOld [("a", [1, 0, 0]), ("b", [0, 1, 0])] [1, 0] 2
+      = .indexDimMismatch [("a", [1, 0, 0]), ("b", [0, 1, 0])] ∧
+    searchWithHnsw [("a", [1, 0, 0]), ("b", [0, 1, 0])] [1, 0, 0, 5] 2 = .err .dimMismatch ∧
+    searchWithHnsw [("a", [1, 0, 0]), ("b", [0, 1, 0])] [1, 0] 2 = .err .dimMismatch ∧
+    (match searchWithHnsw [("a", [1, 0, 0]), ("b", [0, 1, 0])] [1, 0, 0] 2 with
+      | .viaIndex _ rs _ _ => rs.map (·.key)
+      | _ => []) = ["a", "b"] := by
   decide
 
 /-! ### cached_result_shape — what holds when the index is consulted (recall is not claimed) -/
@@ -608,5 +687,10 @@ example : (pageOf 2 (some 2) (searchPaged (run State.init [.store "a" [3, 0], .s
       [1, 0] 5 2 (some 2)).answer).map (·.key) = ["c"] := by decide
 -- the post-filter hypotheses are satisfiable; with a pool that covers the data the answer is exact
 example : (searchFiltered (run State.init pfItems) [1, 0] 1 (.cmp .eq "f" 1) .post 5).answer.map (·.key) = ["e"] := by decide
+-- explicit_index_dimension_guard: data that passes the build check, a query the index is consulted for
+example : sameDims (run State.init dimOps).dflt.items = true ∧
+    (match searchWithHnsw (snapOf (run State.init dimOps).dflt.items) [0, 0, 1] 2 with
+      | .viaIndex snap _ _ _ => snap.length
+      | _ => 0) = 2 := by decide
 
 end Neumann.Vec.Props
